@@ -16,7 +16,8 @@ EXPLANATION = ("generate_if is executed on the real code for every condition val
                "(enclosing scope current, scope cursor consistent) and its per-iteration contract is proved for the arbitrary value k of the variable in [lo, hi): the body -- an "
                "unknown sub-tree, its expansion replaced by _code_gen's contract -- is expanded exactly once, in a fresh loop scope under the enclosing scope, with the variable "
                "bound to k while it is expanded; range() gives the iteration values lo..hi-1 in order and none when hi <= lo.  generate_if on unknown sub-trees expands exactly "
-               "the selected block once, in the enclosing scope.  Equality with the hand-expanded program is the bounded twin comparison.")
+               "the selected block once, in the enclosing scope.  Equality with the hand-expanded program is the bounded twin comparison."
+               "  Also proved: compound conditions mentioning an undefined name are false as a whole (real eval_expression), `:=` in a loop body binds in the iteration's scope, iteration scopes are fresh objects, names are found through scopes that hold nothing.")
 TRUSTED = ["the real eval_expression is used on one-term expressions (proved in C06)"]
 ASSUMPTIONS = ["the concrete-shape cases unroll the loop for bounds from a grid 0..4; the loop-contract case covers arbitrary bounds (range() semantics: k takes lo..hi-1 in order -- "
                "built into the loop cut, not re-proved) with _code_gen replaced by its contract (proved in C08's expansion cases)",
